@@ -124,10 +124,20 @@ Theorem c33_x509_failures_never_invalidate :
     validation_state (add_all r l) <> Invalid.
 Proof. exact x509_failures_never_invalidate. Qed.
 
-(* ... and for the failure codes of the identity layer proper the statement is decided by the generated
-   tolerated-failure rule.  With the rule of the pinned source (only the prefix cawg.x509.) the else-branch holds:
-   "CAWG failures never make the manifest Invalid" is refuted by a code that invalidates every manifest (known
-   finding F-CAWG-INVALIDATES, reproduced end to end by the check); once the rule covers them, the then-branch *)
+(* ... and neither do the failure codes of the identity layer proper (padding, reference mismatch, missing hard
+   binding, duplicate reference): "CAWG failures never make the manifest Invalid" holds for every list of such
+   failures under the tolerated-failure rule regenerated from the current source (prefix "cawg." since fix
+   b8b0a0d9a; this theorem stops compiling if the rule no longer covers them) *)
+Theorem c33_manifest_not_invalidated :
+  forall l r, valid_cond r ->
+    (forall s, In s l -> suri s = None
+               /\ (skind s = KFailure -> In (scode s) identity_failure_codes \/ starts_with x509_prefix (scode s) = true)) ->
+    validation_state (add_all r l) <> Invalid.
+Proof. exact manifest_not_invalidated. Qed.
+
+(* the same statement decided by the generated rule, whatever it is: under the rule of the source before the fix
+   (only the prefix cawg.x509.) the else-branch held -- one identity-layer code invalidated every manifest (finding
+   F-CAWG-INVALIDATES, fixed) *)
 Theorem c33_manifest_not_invalidated_or_refuted :
   if forallb is_tolerated identity_failure_codes
   then forall l r, valid_cond r ->
